@@ -253,6 +253,14 @@ func (g *cityGen) genValidAdd(mix opMix) op {
 		s := old.clone()
 		s.Lat += int32(rc.Range(1, 60))
 		s.Lng += int32(rc.Range(1, 60))
+		if idx := int(old.ID.Value) - 1; mix.invalidPct > 0 && idx < maxPoints && rc.Pct(25) {
+			// back to exactly where the base city had it (whether that is
+			// still a valid place depends on what moved meanwhile: the
+			// world decides, the oracles only look at the outcome)
+			if lat, lng := gridE7(idx, 0); lat != old.Lat || lng != old.Lng {
+				s.Lat, s.Lng = lat, lng
+			}
+		}
 		if rc.Pct(50) {
 			s.Tags = g.someTags(2)
 		}
